@@ -19,11 +19,15 @@ def check(acc, job):
         return
     text = m.text()
     lines = text.split('\n')[:-1]
-    barpos = [i for i, l in enumerate(lines) if i > 0 and is_bar(l)]
+    blank_at = job[3] if len(job) > 3 else None
+    if blank_at is not None:
+        lines.insert(min(blank_at, len(lines) - 1), '')       # a blank line inside a fragment is not a row
+        text = '\n'.join(lines) + '\n'
+    barpos = [i for i, l in enumerate(lines) if i > 0 and l and is_bar(l)]
     if not barpos:
         return
     acc.state(digest(text))
-    case0 = {'text': text, 'headers': job[0], 'seq': job[1], 'seed': job[2]}
+    case0 = {'text': text, 'headers': job[0], 'seq': job[1], 'seed': job[2], 'blank_at': blank_at}
     # data lines per source line, as the full export writes them (normal form): line i of the source <-> its normalised text
     try:
         doc0, errs0 = kp.loads(text)
@@ -34,7 +38,7 @@ def check(acc, job):
         return
     norm = {}
     fl = [l for l in full.split('\n') if l]
-    src_nonnull = [i for i, l in enumerate(lines) if not all(c in ('.', '*') for c in l.split('\t'))]
+    src_nonnull = [i for i, l in enumerate(lines) if l and not all(c in ('.', '*') for c in l.split('\t'))]
     if len(fl) != len(src_nonnull):
         return          # C03 decides the full export
     for i, l in zip(src_nonnull, fl):
@@ -46,7 +50,7 @@ def check(acc, job):
                 frs = ['\n'.join(lines[bounds[i]:bounds[i + 1]]) for i in range(len(bounds) - 1)]
                 if sep == '':
                     frs = [f + '\n' for f in frs]
-                first_has_measure = any(is_bar(l) or is_data(l) or all(c == '*' for c in l.split('\t')) for l in lines[1:bounds[1]])
+                first_has_measure = any(l and (is_bar(l) or is_data(l) or all(c == '*' for c in l.split('\t'))) for l in lines[1:bounds[1]])
                 cls = 'first-fragment-has-a-measure' if first_has_measure else 'first-fragment-header-only'
                 case = dict(case0, cuts=list(cuts), separator=sep, cls=cls)
                 acc.count('evaluations')
@@ -78,7 +82,7 @@ def check(acc, job):
                 if any(l2 != h1 + 1 for (l1, h1), (l2, h2) in zip(idx, idx[1:])):
                     acc.violation(Viol(cls, 'pairs-not-consecutive', case, None, idx))
                 for fi, ((lo, hi), f) in enumerate(zip(idx, frs)):
-                    exp = [norm[i] for i in range(bounds[fi], bounds[fi + 1]) if i in norm and is_data(lines[i]) and not lines[i].startswith('**')]
+                    exp = [norm[i] for i in range(bounds[fi], bounds[fi + 1]) if i in norm and lines[i] and is_data(lines[i]) and not lines[i].startswith('**')]
                     acc.count('transitions')
                     if hi < lo or (hi == 0 and lo == 0):
                         if exp:
@@ -117,12 +121,13 @@ def run(ctx):
     seed = ctx.seed
     jobs = []
     for h, L in ((['**kern'], 4 if quick else 5), (['**kern', '**kern'], 3 if quick else 4)):
-        for seq in X.all_seqs(['d', 'b', 'n', 'k', 'S0', 'J0'], L):
+        for seq in X.all_seqs(['d', 'b', 'n', 'k', 'S0', 'J0'] + (['X0'] if len(h) > 1 else []), L):
             if 'b' not in seq:
                 continue
             jobs.append((h, list(seq), seed))
     for j in D.deviation_docs([['**kern']] if quick else [['**kern'], ['**kern', '**kern']], 1 if quick else 2, (seed,), BACKBONE, ['d', 'b', 'n', 'k', 'z', 'S0', 'J0']):
         jobs.append(j)
+    jobs += [(j[0], j[1], j[2], 2 + k % 5) for k, j in enumerate(jobs) if k % 5 == 0]       # blank-line variants
     ctx.rule = ('kern-only documents (row sequences + deviations of a backbone) x every subset of barline rows as cut set (<= 5 cuts) x two separators; '
                 'non-trivial = at least one cut')
     ctx.bounds = {'sequence_length': '4/3 (quick) 5/4 (thorough)', 'deviations_k': 1 if quick else 2, 'max_cuts': 5}
@@ -133,5 +138,5 @@ def run(ctx):
 
 def replay(case):
     acc = Acc()
-    check(acc, (case['headers'], case['seq'], case['seed']))
+    check(acc, (case['headers'], case['seq'], case['seed'], case.get('blank_at')))
     return [v for v in acc.viol if v['case'].get('cuts') == case.get('cuts') and v['case'].get('separator') == case.get('separator')] or acc.viol[:1]
